@@ -20,7 +20,7 @@ FINDINGS = os.environ.get("C06_FINDINGS", "") not in ("", "0")
 
 # Layout / parser jobs take 0.1..3 s on the unchanged tree. A change that sends the matcher into following lines can
 # make single jobs explore for many minutes; those jobs time out (inconclusive) while their siblings report the violation.
-JOB_TIMEOUT_S = int(os.environ.get("C06_JOB_TIMEOUT_S", "60"))
+JOB_TIMEOUT_S = int(os.environ.get("C06_JOB_TIMEOUT_S", "30"))
 
 STYLES = {0: "plain", 1: "squote", 2: "dquote", 3: "mplain", 4: "lit", 5: "litstrip", 6: "litkeep", 7: "fold", 8: "foldstrip"}
 
@@ -49,9 +49,9 @@ def readback_jobs(tier):
         shape([3, 3], 0)
         shape([4, 3], 1)
         shape([3, 4], 2)
-        shape([4, 4], 3, every=3)
-        shape([3, 0, 3], 2, every=2)
-        shape([3, 3, 3], 3, every=5)
+        shape([4, 4], 3)
+        shape([3, 0, 3], 2)
+        shape([3, 3, 3], 3)
     else:
         shape([4, 4], 0)
         for v in (1, 2, 3, 4):
@@ -73,7 +73,7 @@ def readrange_jobs(tier):
         p = {"nr": len(ws)}
         for i, w in enumerate(ws):
             p["w%d" % i] = w
-        out.append({"name": "rr-" + "-".join(map(str, ws)), "func": "VerifHarness_ReadRange", "params": p, "unwind": 400, "reach": ["end"], "max_failures": 4, "timeout_s": JOB_TIMEOUT_S})
+        out.append({"name": "rr-" + "-".join(map(str, ws)), "func": "VerifHarness_ReadRange", "params": p, "unwind": 400, "reach": ["end"], "max_failures": 4})
     return out
 
 
@@ -83,7 +83,7 @@ def layouts(tier, parser=False):
     inds = [0, 2, 3] if tier == "quick" else [0, 1, 2, 3]
     if parser and tier == "quick":
         inds = [0, 2]
-    sizes = [(4, 3)] if tier == "quick" else [(1, 1), (4, 3), (6, 5)]
+    sizes = [(4, 3)] if tier == "quick" and parser else [(4, 3), (6, 5)] if tier == "quick" else [(1, 1), (4, 3), (6, 5)]
     cmts = [0, 2] if tier == "quick" else [0, 1, 3]
     cinds = [2, 3] if tier == "quick" else [2, 3, 4]
     for style in STYLES:
@@ -147,9 +147,9 @@ PROP = {
         {"pkg": "./internal/parser", "harness": ["harness/C06/gen_parser.go", "harness/C06/parser.go"], "intmode": True, "jobs": parser_jobs},
     ],
     "bounds": {
-        "L1 read-back": "quick: 2 lines of <= 4 bytes with values of 0..3 bytes (every Line/Column/minColumn combination for values <= 2 bytes, every 3rd for 3 bytes), 3 lines of 3/0/3 and 3/3/3 bytes (every 2nd / 5th combination); thorough: 2x4 bytes with values 0..4 (all combinations), 3x3 with values 3 (all) and 4 (every 4th), 4/0/4, 4/4/4 and 5/5 with value 3 (every 2nd/6th/3rd), 7/6 with value 4 (every 12th)",
+        "L1 read-back": "quick: 2 lines of <= 4 bytes with values of 0..3 bytes (every Line/Column/minColumn combination), 3 lines of 3/0/3 bytes with value 2 (all) and 3/3/3 with value 3 (all); thorough: 2x4 bytes with values 0..4 (all combinations), 3x3 with values 3 (all) and 4 (every 4th), 4/0/4, 4/4/4 and 5/5 with value 3 (every 2nd/6th/3rd), 7/6 with value 4 (every 12th)",
         "L2 readRange": "<= 3 (thorough 4) ranges of width <= 3 (4), lines and columns symbolic in 1..9, first/last symbolic, offsets 0..9",
-        "L3 layouts": "9 styles x key indent {0,2,3} (thorough 0..3) x continuation indent {2,3} (thorough 2..4) x trailing comment of 0/2 bytes (thorough 0/1/3) x value on key line / next line x with/without sibling fields x literal blocks with a more-indented second line; content lines of 4 and 3 bytes (thorough also 1/1 and 6/5)",
+        "L3 layouts": "9 styles x key indent {0,2,3} (thorough 0..3) x continuation indent {2,3} (thorough 2..4) x trailing comment of 0/2 bytes (thorough 0/1/3) x value on key line / next line x with/without sibling fields x literal blocks with a more-indented second line; content lines of 4+3 and 6+5 bytes (thorough also 1+1)",
         "parser run": "alert rule with the generated expr field, optional for: and a one-entry labels map with a 2-byte symbolic value; line/column offsets (0,0) and (2,3)",
         "alphabet": "first byte of a content line: a-z except t f n y o, '_' '(' (block scalars also '-' '+'); other bytes: a-z 0-9 _ ( ) + - * / . = < ~ and space (not at the end of a line); quoted styles: the same plus leading/trailing spaces; comment bytes additionally '#'. L1/L2 bytes: any ASCII except newline.",
     },
